@@ -16,6 +16,19 @@ structure ExObs where
   reason : String := ""
   fail : Option String := none
 
+/-- index just after the first CRLF CRLF (the whole input if there is none) -/
+def headEnd (b : Bytes) : Nat :=
+  let rec go (fuel : Nat) (rest : Bytes) (k : Nat) : Nat :=
+    match fuel, rest with
+    | 0, _ => k
+    | _, 13 :: 10 :: 13 :: 10 :: _ => k + 4
+    | _, [] => k
+    | f + 1, _ :: r => go f r (k + 1)
+  go (b.length + 1) b 0
+
+def containsBytes (hay needle : Bytes) : Bool :=
+  (List.range (hay.length + 1)).any fun i => (hay.drop i).take needle.length == needle
+
 def observe (c : TCase) : ExObs :=
   c.lines.foldl (fun (s : ExObs) t =>
     if s.fail.isSome then s else
@@ -38,6 +51,17 @@ def observe (c : TCase) : ExObs :=
     | "bread", ["bytes", n, o] =>
       if o.startsWith "#" then { s with fail := some "needfull" }
       else { s with consumed := s.consumed + n.toNat!, respBody := s.respBody ++ unhex o }
+    | "xrun", "xrun" :: kvs =>
+      -- the whole exchange in one op: split the wire into head and body, take the rest from the summary
+      let get := fun (k : String) => ((kvs.find? (·.startsWith (k ++ "="))).map (fun w => (w.drop (k.length + 1)).toString)).getD ""
+      if (get "wire").startsWith "#" || (get "body").startsWith "#" then { s with fail := some "needfull" } else
+      if get "faults" != "0" then { s with fail := some s!"a call of the exchange failed: {t.raw.take 160}" } else
+      let wb := unhex (get "wire")
+      let hl := headEnd wb
+      let off := (get "off").toNat!
+      { s with head := wb.take hl, bodyWire := wb.drop hl, payload := (unhex (t.op.getD 1 "-")).take off,
+               chunked := containsBytes (wb.take hl) "transfer-encoding: chunked".toUTF8.toList,
+               consumed := (get "consumed").toNat!, resp := get "head", respBody := unhex (get "body") }
     | "close?", ["bool", b] => { s with verdict := b }
     | "reason", "str" :: ws => { s with reason := " ".intercalate ws }
     | _, "fault" :: e :: _ => { s with fail := some s!"the exchange failed: {t.raw.take 120}" }
